@@ -143,12 +143,25 @@ def run_c11(tier, seed, replay):
         wide.append(pth)
         units.append((pth, 0, flat, True))
 
+    # substitution laws (C10 beyond explicit semantics): %S% := the pre-computed result of the closed sub-formula
+    substs = cat.get("substs", [])
+    sub1 = [l for l in substs if gen.depth(l["rhs"]) <= 1]
+    sub2 = [l for l in substs if gen.depth(l["rhs"]) == 2]
+    units += [(MYE, 1, sub1, "subst"), (MYE, 2, sub2, "subst"), (M010, 1, sub1, "subst")]
+    if thorough:
+        units += [(CC, 1, [l for l in sub1 if not (EXPENSIVE & gen.ops(l["rhs"]))], "subst")]
+
     def replay_one(i_unit):
         i, (rel, k, ls_, with_oracles) = i_unit
         r2 = random.Random(seed * 31 + i)
         insts = []
         is_wide = rel in wide
-        for j in range((3 if is_wide else 2) if thorough else (2 if is_wide else 1)):
+        if with_oracles == "subst":
+            for j, l in enumerate(ls_):
+                args = {a: {"t": "randbool", "height": r2.choice([2, 3, 4]), "seed": r2.randrange(1 << 30)} for a in ("T", "R")}
+                args["S"] = {"t": "formula", "f": gen.render(l["sub"])}
+                insts.append({"id": "s%d" % j, "args": args, "laws": [{"id": l["id"], "lhs": gen.render(l["lhs"]), "rhs": gen.render(l["rhs"])}]})
+        for j in range(0 if with_oracles == "subst" else ((3 if is_wide else 2) if thorough else (2 if is_wide else 1))):
             args = {l: {"t": "randbool", "height": r2.choice([2, 3, 4]), "seed": r2.randrange(1 << 30)} for l in ("S", "T", "R")}
             if is_wide:
                 # a single state / all but a single state: iterations that move a handful of states
@@ -156,7 +169,7 @@ def run_c11(tier, seed, replay):
             if j == 1 and k >= 1:
                 args["S"] = {"t": "formula", "f": "!{x}: AX {x}"}
             ls = [{"id": l["id"], "lhs": gen.render(l["lhs"]), "rhs": gen.render(l["rhs"])} for l in ls_]
-            if with_oracles:
+            if with_oracles is True:
                 ls += [{"id": o["id"], "lhs": gen.render(o["lhs"]), "oracle": o["oracle"]} for o in oracles]
             insts.append({"id": "i%d" % j, "args": args, "laws": ls})
         jp = os.path.join(wd, "big-%d.json" % i)
@@ -194,7 +207,7 @@ def run_c11(tier, seed, replay):
     byid.update({c["id"]: c for c in cases})
     samples = [{"law": l["id"], "lhs": gen.render(l["lhs"]), "rhs": gen.render(l["rhs"])} for l in laws[:3]] + facts[:2]
     return runner.report("C11", tier, seed, t0, items, verdicts, ["denote", "equal", "law"], stats,
-                         {"samples": samples, "laws": len(laws), "oracle_laws": len(oracles), "big_models": models_info,
+                         {"samples": samples, "laws": len(laws), "oracle_laws": len(oracles), "substitution_laws": len(substs), "big_models": models_info,
                           "obligations": proved, "discharged": proved, "checker_cmd": "tlapm --threads 4 spec/Proofs.tla",
                           "proofs": "TLAPS: AX/EX duality, monotonicity, distribution over union / intersection, self-loop identity, EU / EG unfolding steps, until with an empty argument, AX => EX and EX true on total structures, binder laws (bind_jump, exists_var, forall_imp, dom_bind_leaf, dom_exists_var/and, dom_forall_imp) and README domain equivalences, for arbitrary S and K",
                           "mode_A": {"structures_up_to_states": 3 if thorough else 2, "states": da,
